@@ -377,8 +377,8 @@ func judgeExpmod(r *vcore.Run, c *expmodCase, o outcome) {
 // ---------------------------------------------------------------- SNARKV
 
 type ecpairCircuit struct {
-	P   [3]sw_bn254.G1Affine
-	Q   [3]sw_bn254.G2Affine
+	P   [maxPairs]sw_bn254.G1Affine
+	Q   [maxPairs]sw_bn254.G2Affine
 	Acc sw_bn254.GTEl
 	B   frontend.Variable
 	cfg *pairCfg
@@ -451,9 +451,9 @@ func execEcpair(raw json.RawMessage) outcome {
 		return outcome{Err: "decode: " + err.Error()}
 	}
 	_, _, g1, g2 := bn254.Generators()
-	var P [3]bn254.G1Affine
-	var Q [3]bn254.G2Affine
-	for i := 0; i < 3; i++ {
+	var P [maxPairs]bn254.G1Affine
+	var Q [maxPairs]bn254.G2Affine
+	for i := 0; i < maxPairs; i++ {
 		a, b := bi(1), bi(1)
 		if i < len(c.A) {
 			a, b = c.A[i], c.B[i]
@@ -495,7 +495,7 @@ func execEcpair(raw json.RawMessage) outcome {
 		}
 		want = (c.Flag == 1) == ok
 	}
-	for i := 0; i < 3; i++ {
+	for i := 0; i < maxPairs; i++ {
 		asg.P[i] = sw_bn254.NewG1Affine(P[i])
 		asg.Q[i] = sw_bn254.NewG2Affine(Q[i])
 	}
@@ -533,6 +533,8 @@ func genEcpair(rng *rand.Rand, quick bool) []*ecpairCase {
 	if !quick {
 		c, e := rk(), rk()
 		out = append(out,
+			&ecpairCase{Kind: "ecpair", Class: "n=4,product=1", N: 4, A: []*big.Int{a, c, a, neg(new(big.Int).Add(new(big.Int).Add(mul(a, b), mul(c, e)), mul(a, e)))}, B: []*big.Int{b, e, e, one}},
+			&ecpairCase{Kind: "ecpair", Class: "n=4,product!=1", N: 4, A: []*big.Int{a, c, a, neg(new(big.Int).Add(mul(a, b), mul(c, e)))}, B: []*big.Int{b, e, e, one}},
 			&ecpairCase{Kind: "ecpair", Class: "n=3,product=1", N: 3, A: []*big.Int{a, c, neg(new(big.Int).Add(mul(a, b), mul(c, e)))}, B: []*big.Int{b, e, one}},
 			&ecpairCase{Kind: "mlfe", Class: "product=1,flag=0(must-reject)", N: 2, A: []*big.Int{a, neg(mul(a, b))}, B: []*big.Int{b, one}, Flag: 0},
 			&ecpairCase{Kind: "isong2", Class: "twist-not-subgroup,flag=0", A: []*big.Int{one}, B: []*big.Int{b}, Tweak: "twist-not-subgroup", Flag: 0, Seed: rng.Uint64() % (1 << 40)},
